@@ -137,6 +137,7 @@ def c08(run):
             g.tag = 'cap%d' % cap
             g.fsk_rx(q(run, 40, 600)); g.fsk_tx(q(run, 40, 600)); g.lora_rx(q(run, 40, 500)); g.lora_tx(q(run, 15, 200))
             g.fsk_fault(q(run, 15, 200)); g.beacon([5, 100, 1000, 3000, 70000]); g.hist(q(run, 40, 600), (5, 50))
+            g.stale_length(q(run, 30, 300), cap)
         run.cov['caps'] = run.cov.get('caps', []) + [cap]
         divs += C.execute(run, gen_small, variants=('cap%d' % cap,), model_args=('--cap', str(cap)), monitor=M.mon_aborts, corpus=False)
     return divs
